@@ -433,6 +433,8 @@ class GoGen:
         if depth == 'branch': opts = [o for o in opts if o != 'decl']
         if depth == 'if': opts = ['if']
         if depth == 'switch': opts = ['switch']
+        if getattr(s, 'first', None) is not None and depth == 0:      # shard: the kind of the first top-level statement is fixed
+            opts = [s.first]; s.first = None
         k = s.ex.choose([(True, o) for o in opts])
         if k == 'decl':
             fresh = [v for v in ('a', 'b') if v not in declared]
@@ -535,12 +537,12 @@ class GoEval:
 
 class UseBeforeDecl(Exception): pass
 
-def ob_block_dce(r, tier, seed, nstmts, depth, forms=('atom', 'call', 'add', 'div'), conds=('less',), branch_n=1):
+def ob_block_dce(r, tier, seed, nstmts, depth, forms=('atom', 'call', 'add', 'div'), conds=('less',), branch_n=1, first=None):
     W = e2.fresh_world(CRATES)
     r.bounds = 'Go blocks of %d statements (+ final `return <var>`) over {VarDecl, Assignment, call statement%s}, variables {a, b} and parameter p, initialisers among atom / call / + / integer division; nothing live afterwards' % (nstmts, (', value switch with two cases and an optional default' if depth == 'switch' else ', if/else with %d-statement branches, condition among %s' % (branch_n, list(conds))) if depth else '')
     r.assumptions = ['inputs are well-formed Go by construction (declared before use)', 'an assignment `x = e` never reads x itself: goml has no mutable locals, emitted temporaries are assigned once per path (a kernel counterexample `var a = p; a = a; return a` exists - dce drops the initialiser - but no goml program produces that shape)', 'oracle: translation validation with uninterpreted calls - the sequence of calls (with argument terms), of possibly-failing integer divisions and of branch events, and the returned term, must be identical before and after DCE; every variable read or assigned in the output must be declared there']
     def entry(ex):
-        g = GoGen(W, ex, forms, conds, branch_n); declared = ['p']
+        g = GoGen(W, ex, forms, conds, branch_n); declared = ['p']; g.first = first
         blk = g.block(declared, nstmts, 0)
         if depth: blk.fields[0].items.append(g.stmt(declared, 'switch' if depth == 'switch' else 'if'))
         ret = ex.choose([(True, v) for v in declared])
@@ -705,13 +707,15 @@ def obligations():
            Ob('O9.1-effect-predicate-d2', 'DCE effect predicate is sound, depth 2', ob_effect_predicate, ('quick', 'thorough'), 10, dict(depth=2))]
     obs += [Ob('O9.3-anf-order-call-d1', 'ANF keeps the source effect trace: f(A1, A2), depth 1', ob_anf_order, ('quick', 'thorough'), 3, dict(depth=1, forms=['call1', 'call2', 'callcall', 'add', 'if', 'let', 'tuple', 'while', 'whilematch', 'unitop'], top='call')),
             Ob('O9.3-anf-order-bool-d1', 'ANF keeps short-circuit evaluation of && / ||', ob_anf_order, ('quick', 'thorough'), 3, dict(depth=1, forms=['and', 'or', 'not', 'less', 'call1', 'reads'], top='bool')),
-            Ob('O9.3-anf-order-call-d2', 'ANF keeps the source effect trace: f(A1, A2), depth 2', ob_anf_order, ('thorough',), 100, dict(depth=2, forms=['call1', 'callcall', 'add', 'if', 'let', 'and', 'or'], top='call'))]
+            Ob('O9.3-anf-order-call-d2-if', 'ANF keeps the source effect trace: f(A1, A2), depth 2 over calls / + / if with && and ||', ob_anf_order, ('thorough',), 100, dict(depth=2, forms=['call1', 'add', 'if', 'and', 'or'], top='call')),
+            Ob('O9.3-anf-order-call-d2-let', 'ANF keeps the source effect trace: f(A1, A2), depth 2 over calls / callee expressions / let', ob_anf_order, ('thorough',), 100, dict(depth=2, forms=['call1', 'callcall', 'let'], top='call'))]
     obs += [Ob('O9.2-block-dce-2', 'block-level DCE preserves effects and the returned value: 2 statements + return', ob_block_dce, ('quick', 'thorough'), 3, dict(nstmts=2, depth=0)),
             Ob('O9.2-block-dce-3', 'block-level DCE: 3 statements + return', ob_block_dce, ('thorough',), 20, dict(nstmts=3, depth=0)),
             Ob('O9.2-block-dce-if', 'block-level DCE: 1 statement, then if/else with one assignment or call per branch, + return', ob_block_dce, ('quick', 'thorough'), 20, dict(nstmts=1, depth=1, forms=('atom', 'call', 'div'))),
             Ob('O9.2-block-dce-constif', 'block-level DCE: 1 statement, then if/else with a literal condition and 2 statements per branch, + return', ob_block_dce, ('quick', 'thorough'), 30, dict(nstmts=1, depth=1, forms=('call',), conds=('true', 'false'), branch_n=2)),
             Ob('O9.2-block-dce-switch', 'block-level DCE: 1 statement, then a value switch with two cases (+ default), + return', ob_block_dce, ('quick', 'thorough'), 30, dict(nstmts=1, depth='switch', forms=('atom', 'call'))),
-            Ob('O9.2-block-dce-if2', 'block-level DCE: 2 statements, then if/else, + return', ob_block_dce, ('thorough',), 200, dict(nstmts=2, depth=1, forms=('atom', 'call')))]
+            Ob('O9.2-block-dce-if2-decl', 'block-level DCE: 2 statements (the first a declaration), then if/else, + return', ob_block_dce, ('thorough',), 200, dict(nstmts=2, depth=1, forms=('atom', 'call'), first='decl')),
+            Ob('O9.2-block-dce-if2-call', 'block-level DCE: 2 statements (the first a call statement), then if/else, + return', ob_block_dce, ('thorough',), 200, dict(nstmts=2, depth=1, forms=('atom', 'call'), first='call'))]
     obs += [Ob('O9.3-anf-order-arith-d1', 'ANF evaluates the operands of + - * / left to right', ob_anf_order, ('quick', 'thorough'), 3, dict(depth=1, forms=['call1', 'add', 'div', 'sub', 'mul'], top='call')),
             Ob('O9.4-go-lowering-arith-d1', 'Go lowering keeps the operand order of + - * /', ob_go_lowering, ('quick', 'thorough'), 5, dict(depth=1, forms=['call1', 'add', 'div', 'sub', 'mul'], top='call'))]
     obs += [Ob('O9.3-anf-order-agg-d1', 'ANF evaluates array items, struct initialisers, dynamic-call arguments, negation operands and match scrutinees once, left to right', ob_anf_order, ('quick', 'thorough'), 5, dict(depth=1, forms=['call1', 'array', 'constr', 'dyncall', 'neg', 'matchop'], top='call'))]
